@@ -239,7 +239,7 @@ func FuzzC08Accept(f *testing.F) {
 // soupSmall / soupLarge are token alphabets for the bounded-exhaustive token
 // soups: every bracket kind, a callable name, a separator, operators of two
 // kinds, keywords that end or continue productions.
-var soupSmall = []string{"a", "f", "(", ")", "[", "]", ",", "+"}
+var soupSmall = []string{"a", "f", "(", ")", "[", "]", ",", "+", "in"}
 var soupLarge = []string{"a", "f", "(", ")", "[", "]", ",", "+", "by", "=", "in", "1", "asc", "`q i`", "1e+"}
 
 // soupContexts are the positions the soup is spliced into.
@@ -247,7 +247,7 @@ var soupContexts = []string{"T | where %s", "T | summarize %s", "T | extend %s",
 
 // soupOps / soupOpContexts: operator-level soups (keywords of every operator's
 // optional parts) spliced where an operator or its arguments are expected.
-var soupOps = []string{"a", "(", ")", ",", "=", "by", "kind", "inner", "on", "with", "nulls", "first", "asc", "|", "count", "1", "'s'", ";", "-", "`asc`", "'desc'", "٣", "0x10000000000000001"}
+var soupOps = []string{"a", "(", ")", ",", "=", "by", "kind", "inner", "on", "with", "nulls", "first", "asc", "|", "count", "1", "'s'", ";", "-", "`asc`", "'desc'", "٣", "0x10000000000000001", "'on'", "`kind`"}
 var soupOpContexts = []string{"T | join %s", "T | join kind = %s", "T | join (U) %s", "T | render %s", "T | render x with (%s", "T | take %s", "T | as %s", "T | %s", "%s", "T | sort by a %s", "T | top %s", "T | summarize a %s", "let %s"}
 
 // soupBrackets: a small alphabet taken to greater length.
@@ -413,6 +413,32 @@ func TestC08Dictionary(t *testing.T) {
 							st.Violation(t, "C08", "accept", mkStrCase(src), "%+q: %s", src, msg)
 						}
 					}
+				}
+			}
+		}
+	}
+	// a dictionary word written as a string or a quoted name where a keyword
+	// stands: a keyword is a bare word
+	quotedTemplates := []string{"T | join (U) %s k", "T | join %s=inner (U) on k", "T | join kind=%s (U) on k", "T | sort by a %s", "T | sort by a asc %s first", "T | sort by a nulls %s", "T | top 1 %s a", "T | summarize x = count() %s k", "T | render x %s (a=1)", "%s v = 1; T", "T | %s a > 1", "T | take 1 | %s", "T | where a %s (1)", "T | where a > 1 %s b > 2"}
+	for wi, w := range words {
+		if wi%env.NShards != env.Shard || failed {
+			continue
+		}
+		for _, qw := range []string{"'" + w + "'", "\"" + w + "\"", "`" + w + "`"} {
+			for _, tmpl := range quotedTemplates {
+				src := fmt.Sprintf(tmpl, qw)
+				st.Eval()
+				msg, accepted, _ := checkAccept(src)
+				if accepted {
+					st.Class("accepted")
+					st.NonTrivialExact(1)
+					// accepted is fine where the position takes a name or a value;
+					// then the tree must hold a quoted name or a string, which
+					// checkAccept has just verified token by token
+				}
+				if msg != "" && !failed {
+					failed = true
+					st.Violation(t, "C08", "accept", mkStrCase(src), "%+q: %s", src, msg)
 				}
 			}
 		}
